@@ -141,6 +141,43 @@ def run(ctx):
                     check_dispositions(ctx, "C19.O2.output-passing-call-propagates", f, c,
                                        "%s%s|%s#%d" % (tag, f.path, c.name, k))
         ctx.floor("C19.O2 calls handing the Output on" + tag, n2, 8)
+        # O8 (after seed C19-7): between the engine and the sink sit the engine's own Display / Debug / render
+        # implementations (`write!(out, "{}", value)` reaches `Display for Value`, `DynObject`, the object `render`
+        # defaults ...).  A sink failure travels back through them as fmt::Error; each of them hands the formatter's
+        # verdict on.  For every function of the engine with a `&mut Formatter` parameter: the Result of every call
+        # that is given that formatter is returned or propagated (not `.or_else(..)`-ed into a second attempt).
+        n8 = 0
+        for f in prog.fns.values():
+            if f.crate != "minijinja":
+                continue
+            fps = [l for l in range(1, f.argc + 1) if f.locals[l].get("adt") == "core::fmt::Formatter" and f.locals[l].get("refs", 0) >= 1]
+            if not fps:
+                continue
+            per = {}
+            for c in f.calls():
+                if not result_ty(f, c.dest):
+                    continue
+                passes = False
+                for a in c.args:
+                    p = op_place(a)
+                    if p is None:
+                        continue
+                    for o in flow.origins(f, a):
+                        if o.kind == "arg" and o.arg in fps and not o.proj:
+                            passes = True
+                if not passes:
+                    continue
+                n8 += 1
+                k = per[c.name] = per.get(c.name, 0) + 1
+                ds = errflow.disposition(f, c)
+                bad = [d for d in ds if d[0] in ("swallowed", "dropped", "matched-not-propagated")]
+                if bad:
+                    ctx.ob("C19.O8.formatting-code-hands-the-sink's-verdict-on", "%s%s|%s#%d" % (tag, f.path, c.name.split("::")[-1], k), False,
+                           "%s is given the formatter and its Result is %s: a failed sink write inside it is answered "
+                           "with another attempt or forgotten" % (c.name, "; ".join("%s (%s)" % (d[0], d[1]) for d in bad)),
+                           f.where(c.bb))
+        ctx.ob("C19.O8.formatting-code-hands-the-sink's-verdict-on", tag + "all-formatting-functions", True, "calls checked: %d" % n8, "")
+        ctx.floor("C19.O8 calls given a formatter in the engine's formatting code" + tag, n8, 60)
     prog = ctx.prog
     # O3
     n3 = 0
